@@ -268,6 +268,15 @@ Plan gen_c18(uint64_t seed, int tier)
       {
         int64_t fb = (sink_faults && r.chance(1, 6)) ? (int64_t{1} << r.below(static_cast<uint32_t>(nsinks_cfg))) : 0;
         ops.push_back(Op{OP_BT_LOG, lg, 0, 0, static_cast<int64_t>(r.next() >> 8), static_cast<int64_t>(r.below(30)), fb});
+        if (r.chance(1, 14))
+        {
+          // re-initialise with the SAME capacity while the ring holds statements (the way to change only the flush level):
+          // nothing stored may be forgotten. flush_log first, so that no ordinary statement is in flight when the level,
+          // which the frontend publishes immediately, changes.
+          ops.push_back(Op{OP_FLUSH, lg, 100});
+          flush_level = r.pick<int64_t>({10, 7, 8, 6});
+          ops.push_back(Op{OP_BT_INIT, lg, cap, flush_level});
+        }
         if (r.chance(1, 4))
         {
           // ordinary statements below the flush level in between
@@ -525,7 +534,7 @@ void register_c18(std::vector<Profile>& v)
     "must equal a reference ring model exactly; distinct = distinct event hash; non-trivial = >=1 flush that replayed >=1 statement";
   p.real_components = {"BacktraceStorage", "BackendWorker::_process_transit_event (Backtrace/InitBacktrace/FlushBacktrace)", "frontend, queues"};
   p.stub_components = {"recording sinks", "clock (virtual)", "scheduling (simulator)"};
-  p.assumptions = {"exact model: one writer thread per backtrace logger; re-initialisation only with the ring empty and nothing in flight",
+  p.assumptions = {"exact model: one writer thread per backtrace logger; re-initialisation with another capacity only with the ring empty, with the same capacity (new flush level) also while it holds statements; nothing in flight in both cases",
                    "multi-writer variant (1 run in 4): 2-3 threads store concurrently, the flush is issued after they are joined; demanded: each id once, "
                    "min(capacity, stored) statements, per thread the most recent ones in that thread's order (no order demanded across threads)"};
   p.quick_runs = 20000;
